@@ -43,6 +43,6 @@ for i in sorted(os.listdir(hd)) if os.path.isdir(hd) else []:
 static = open(os.path.join(here, "design10_static.md")).read()
 s += static.format(rows=rows, fixed=fixed, ptab=ptab, nthm=nthm, loc_all=loc_all, loc_props=loc_props, loc_model=loc_model, loc_gen=loc_gen, seeded=seeded, harmless=harmless, hOK=hcls.get('OK', 0), hTIE=hcls.get('TIE', 0), hFA=hcls.get('FALSE-ALARM', 0), hINFRA=hcls.get('INFRA', 0),
                    nR=cnt("R-")[0], cR=cnt("R-")[1], n1=cnt("S-")[0], c1=cnt("S-")[1], n2=cnt("S2-")[0], c2=cnt("S2-")[1], n3=cnt("S3-")[0], c3=cnt("S3-")[1],
-                   n4=cnt("S4-")[0], c4=cnt("S4-")[1], n5=cnt("S5-")[0], c5=cnt("S5-")[1], n6=cnt("S6-")[0], c6=cnt("S6-")[1], n7=cnt("S7-")[0], c7=cnt("S7-")[1])
+                   n4=cnt("S4-")[0], c4=cnt("S4-")[1], n5=cnt("S5-")[0], c5=cnt("S5-")[1], n6=cnt("S6-")[0], c6=cnt("S6-")[1], n7=cnt("S7-")[0], c7=cnt("S7-")[1], n8=cnt("S8-")[0], c8=cnt("S8-")[1])
 open(p, "w").write(s)
 print("DESIGN.md section 10.3+ regenerated:", nthm, "obligations,", loc_all, "lines of Lean")
